@@ -93,7 +93,14 @@ unsafe impl GlobalAlloc for RecAlloc {
                 push(ARec { kind: 3, size: new_size, align: l.align(), ..ZREC });
                 return std::ptr::null_mut();
             }
-            let q = System.realloc(p, fix(l), new_size.max(1));
+            // ALWAYS relocate (as size-class allocators do when a block shrinks): a pointer read before the
+            // realloc is stale afterwards
+            let nl = Layout::from_size_align_unchecked(new_size.max(1), fix(l).align());
+            let q = System.alloc(nl);
+            if !q.is_null() {
+                std::ptr::copy_nonoverlapping(p, q, l.size().min(new_size));
+                System.dealloc(p, fix(l));
+            }
             push(ARec { kind: 2, addr: p as usize, size: l.size(), align: l.align(), nsize: new_size, naddr: q as usize });
             q
         } else {
